@@ -30,22 +30,25 @@ def run(names, repo, workdir):
         res["undecided"].append("native harness binary did not build: " + err[-400:].replace("\n", " | "))
         return res
     res["cmd"] = "%s --enum <harness>" % exe
+    todo = []
     for n in names:
         if n not in reg:
             res["undecided"].append("unknown native harness " + n)
             continue
         for fn in reg[n]["functions"]:
             res["functions"].append({"engine": "native-enumeration", "harness": n, "item": fn, "complete": False, "bound": reg[n]["bound"]})
+        todo.append(n)
+
+    def one(n):
         t0 = time.time()
         try:
-            p = subprocess.run([exe, "--enum", n], capture_output=True, text=True, timeout=900)
+            p = subprocess.run([exe, "--enum", n], capture_output=True, text=True, timeout=1500)
         except subprocess.TimeoutExpired:
-            res["undecided"].append("native harness %s: timeout" % n)
-            continue
+            return n, None, "native harness %s: timeout" % n
         ob = {"name": "native::" + n, "engine": "native-enumeration", "complete": False, "bound": reg[n]["bound"], "seconds": round(time.time() - t0, 2)}
         m = re.search(r"ENUM-COMPLETED harness=\w+ cases=(\d+) rejected_by_assumption=(\d+) exhausted=(\w+)", p.stdout)
         f = re.search(r"ENUM-FAILED harness=\w+ case=(\d+) digits=(\[.*?\]) message=(.*)", p.stdout)
-        if m and p.returncode == 0:
+        if m and p.returncode == 0 and int(m.group(1)) > 0:
             ob["status"] = "discharged"
             ob["cases"] = int(m.group(1))
             ob["bound"] += "; %s combinations executed on the real code (exhausted=%s)" % (m.group(1), m.group(3))
@@ -59,6 +62,14 @@ def run(names, repo, workdir):
             ob["verifier_output"] = p.stdout[-800:]
         else:
             ob["status"] = "undecided"
-            res["undecided"].append("native harness %s: unexpected output (exit %d): %s" % (n, p.returncode, (p.stdout + p.stderr)[-300:].replace("\n", " | ")))
-        res["obligations"].append(ob)
+            return n, ob, "native harness %s: unexpected output (exit %d): %s" % (n, p.returncode, (p.stdout + p.stderr)[-300:].replace("\n", " | "))
+        return n, ob, None
+
+    from concurrent.futures import ThreadPoolExecutor
+    with ThreadPoolExecutor(max_workers=8) as ex:
+        for n, ob, err in ex.map(one, todo):
+            if err:
+                res["undecided"].append(err)
+            if ob:
+                res["obligations"].append(ob)
     return res
